@@ -26,6 +26,9 @@ PRE_APIS = ["recv@stray_open_failure", "recv_exit_status@stray_open_failure", "s
             "exec_command@stray_open_failure", "recv@stray_open_success",
             "recv@shutdown_read", "recv@shutdown_2", "recv_stderr@shutdown_read", "recv_stderr@shutdown_2",
             "recv_stderr", "send_stderr", "recv_exit_status@shutdown_read"]
+# "<api>@presock": the application had set a long timeout on the socket before handing it to Transport
+PRESOCK_APIS = ["accept@presock", "recv@presock", "open_session@presock", "recv_exit_status@presock",
+                "global_request@presock", "sendall@presock"]
 APIS = ["recv", "recv_timeout", "send", "sendall", "exec_command", "recv_exit_status", "open_session",
         "global_request", "renegotiate_keys", "auth_password", "start_client", "accept", "ensure_session"]
 ROW = {"recv_stderr": "recv", "send_stderr": "send", "recv": "recv", "recv_timeout": "recv", "send": "send", "sendall": "send",
@@ -66,6 +69,8 @@ def scenario(api, loss, phase, T, seed):
     if api == "ensure_session":
         kw["auth"] = False
         kw["client_cls"] = ServiceRequestingTransport
+    if pre == "presock":
+        kw["sock_timeout"] = 30.0
     tc = ts = None
     try:
         if api == "start_client":
@@ -611,6 +616,7 @@ def run(ctx):
     # ---- real side
     jobs = [(a, l, p, rep) for a in APIS for l in LOSSES for p in PHASES for rep in range(reps)]
     jobs += [(a, l, p, 0) for a in PRE_APIS for l in ("eof", "disconnect", "local_close") for p in PHASES]
+    jobs += [(a, l, p, 0) for a in PRESOCK_APIS for l in ("local_close", "eof", "disconnect") for p in PHASES]
     ctx.rng.shuffle(jobs)
 
     def do(job):
